@@ -182,6 +182,20 @@ func vfC02(c *hx.Ctx) {
 	c.Deadline = time.Now().Add(time.Until(full) * 75 / 100)
 	K := hx.Pick(c, 6, 7)
 	grid := vfCoreGrid(!c.Quick(), K, vfAllFates)
+	// asymmetric windows with a slow reader: the sender assumes more than the receiver has, segments get parked behind a
+	// full delivery queue, and every fate (duplicates, late copies) hits that state too
+	for _, mode := range []string{"session", "update"} {
+		for _, w := range []int{1, 2, 4} {
+			for _, nc := range []int{0, 1} {
+				for _, after := range []int{-1, 0, 2} {
+					cf := vfSimCfg{Mode: mode, Stream: after != 2, SndWnd: [2]int{32, 32}, RcvWnd: [2]int{32, w}, Mtu: 40, NoDelay: [4]int{1, 20, 2, nc},
+						Delay: 10, HorizonMs: 600000, PauseAfter: after, PauseMs: 900, K: K - 1, Fates: vfAllFates}
+					cf.Writes[0] = []int{16, 16, 16, 16, 16, 16, 16, 16, 16, 16}
+					grid = append(grid, vfNamedCfg{fmt.Sprintf("asym/%s/snd_wnd=32/rcv_wnd=%d/nc=%d/pause-after=%d", mode, w, nc, after), cf})
+				}
+			}
+		}
+	}
 	vfRunGrid(c, grid, "C02:")
 	c.Deadline = full
 	// outages on a covering subset: one unit per base configuration, the outage is an environment choice
